@@ -1,5 +1,5 @@
-(* C01 layer 2, calendar-level statement: for EVERY year 2..9999, week start and list of BYWEEKNO
-   members in -51..51, the week-number mask that rebuild() builds marks, on every index the
+(* C01 layer 2, calendar-level statement: for EVERY year, week start and list of BYWEEKNO
+   members in -53..53 (the RFC 5545 range), the week-number mask that rebuild() builds marks, on every index the
    iteration reads, exactly the days whose wkst-week number (RRSpec.week_of) or its negative
    within the week-year (RRSpec.weeks_in) is a member of the list. *)
 From Coq Require Import ZArith List Bool Lia.
@@ -13,16 +13,16 @@ Definition spec_weekno_clause (wk o n : Z) : bool :=
   let '(wy, w) := week_of wk o in (n =? w) || (n =? w - weeks_in wk wy - 1).
 
 Theorem wnomask_correct_calendar : forall year wk L,
-  2 <= year <= 9999 -> 0 <= wk <= 6 -> forallb weekno_safe L = true ->
+  0 <= wk <= 6 -> forallb weekno_safe L = true ->
   let ywd := weekday_of_ord (jan1 year) in
   exists m,
-    build_wnomask year (year_len year) ywd wk (py_from T_WDAYMASK ywd) L = Ok m /\
+    build_wnomask year (year_len year) (year_len (year + 1)) ywd wk (py_from T_WDAYMASK ywd) L = Ok m /\
     zlen m = year_len year + 7 /\
     forall i, used_index (shape_of year) wk i = true ->
       nzb (nth (Z.to_nat i) m 0) = existsb (spec_weekno_clause wk (jan1 year + i)) L.
 Proof.
-  intros year wk L Hy Hw HL ywd. unfold ywd.
-  rewrite (build_wnomask_shape year wk L ltac:(lia)).
+  intros year wk L Hw HL ywd. unfold ywd.
+  rewrite (build_wnomask_shape year wk L).
   destruct (wnomask_correct_guarded (shape_of year) wk L (year_shape_complete year) Hw HL)
     as (m & Em & Lm & Pm).
   exists m. split; [exact Em|]. split; [exact Lm|].
@@ -35,12 +35,12 @@ Qed.
 
 (* no IndexError while building the mask, for every year and every list of integers *)
 Theorem wnomask_no_index_error_calendar : forall year wk L,
-  2 <= year <= 9999 -> 0 <= wk <= 6 ->
+  0 <= wk <= 6 ->
   let ywd := weekday_of_ord (jan1 year) in
-  exists m, build_wnomask year (year_len year) ywd wk (py_from T_WDAYMASK ywd) L = Ok m.
+  exists m, build_wnomask year (year_len year) (year_len (year + 1)) ywd wk (py_from T_WDAYMASK ywd) L = Ok m.
 Proof.
-  intros year wk L Hy Hw ywd. unfold ywd.
-  rewrite (build_wnomask_shape year wk L ltac:(lia)).
+  intros year wk L Hw ywd. unfold ywd.
+  rewrite (build_wnomask_shape year wk L).
   destruct (wnomask_no_index_error (shape_of year) wk L (year_shape_complete year) Hw) as (m & Em & _).
   exists m. exact Em.
 Qed.
@@ -49,7 +49,7 @@ Qed.
    30/31 December (week 1 of 2025) are marked *)
 Example wnomask_calendar_example :
   forallb weekno_safe [1; -1] = true /\
-  match build_wnomask 2024 366 0 0 (py_from T_WDAYMASK 0) [1; -1] with
+  match build_wnomask 2024 366 365 0 0 (py_from T_WDAYMASK 0) [1; -1] with
   | Ok m => nth 0 m 0 = 1 /\ nth 7 m 0 = 0 /\ nth 356 m 0 = 0 /\ nth 363 m 0 = 1 /\ nth 365 m 0 = 1
   | Err _ => False
   end.
